@@ -67,7 +67,7 @@ def jLimits (l : List Json) : List RawLimit :=
 
 def jDeps (l : List Json) : List Dep :=
   l.filterMap (fun x => match jNatF? x "t" with
-    | some t => some { target := t, gap := jIntF x "gap", onstart := jBool x "onstart", hasOpts := jBool x "opts" }
+    | some t => some { target := t, gap := jIntF x "gap", onstart := jBool x "onstart", hasOpts := jBool x "opts", glen := jIntF x "glen" }
     | none => none)
 
 def jNats (l : List Json) : List Nat := l.filterMap jNat?
@@ -217,18 +217,18 @@ def runSched (j : Json) : Json :=
   let mileFail := milePairs.filter (fun (td : Nat × Dep) =>
     let dt := if td.2.onstart then (σ.tst td.2.target).start else (σ.tst td.2.target).stop
     match dt, (σ.tst td.1).start with
-    | some d, some v => !((σ.tst td.2.target).scheduled && decide (d + td.2.gap ≤ v))
+    | some d, some v => !((σ.tst td.2.target).scheduled && decide (depDate e td.2 d ≤ v))
     | _, _ => !(σ.tst td.2.target).scheduled)
   let depPairsAll := fwds.flatMap (fun t => (e.taskD t).allDeps.map (fun dp => (t, dp)))
   let depFailAll := depPairsAll.filter (fun (td : Nat × Dep) =>
     let dt := if td.2.onstart then (σ.tst td.2.target).start else (σ.tst td.2.target).stop
     match dt, (σ.tst td.1).start with
-    | some d, some v => !((σ.tst td.2.target).scheduled && decide (d + td.2.gap ≤ v))
+    | some d, some v => !((σ.tst td.2.target).scheduled && decide (depDate e td.2 d ≤ v))
     | _, _ => !(σ.tst td.2.target).scheduled)
   let depFail := depPairs.filter (fun (td : Nat × Dep) =>
     let dt := if td.2.onstart then (σ.tst td.2.target).start else (σ.tst td.2.target).stop
     match dt, (σ.tst td.1).start with
-    | some d, some v => !((σ.tst td.2.target).scheduled && decide (d + td.2.gap ≤ v))
+    | some d, some v => !((σ.tst td.2.target).scheduled && decide (depDate e td.2 d ≤ v))
     | _, _ => !(σ.tst td.2.target).scheduled)
   -- backward tasks whose deadline comes from their successors: end + gap <= start of every successor
   let σp := prepare e (initState e)
